@@ -707,28 +707,28 @@ def jobs(tier, seed):
         specs.append(("nexus", "registry", None, None, 4, None))
         specs.append(("nexus", "registry-full", None, None, 3, None))
     else:
+        # thorough: both child orders, three-valued domain on the shapes up to four nodes, deeper bounds everywhere.  (The closure of all
+        # five-node shapes and structural edits to depth 4 were part of this tier until the alphabet grew: they no longer finish within an
+        # hour on 16 cores and were taken out - see DESIGN 8a.)
         for order in ("asc", "desc"):
             for n in (2, 3):
                 for sh in dag_shapes(n, order):
                     specs.append(("closure", "dag%d" % n, sh, (0, 1, 2), None, (0, 1)))
             for sh in dag_shapes(4, order):
                 specs.append(("closure", "dag4", sh, (0, 1, 2), None, (0,)))
-                specs.append(("bounded", "dag4", sh, (0, 1), 6, (0, 1)))
-            if order == "asc":  # the five-node shapes in one child order (the other order is covered up to four nodes)
-                for sh in dag_shapes(5, order):
-                    specs.append(("closure", "dag5", sh, (0, 1), None, (0,)))
+                specs.append(("bounded", "dag4", sh, (0, 1), 5, (0, 1)))
         for name, sh in SPECIAL_SHAPES.items():
             d = (0, 1, 2) if name != "operators" else (1, 2, 4)
-            specs.append(("closure", name, sh, d[:2], None, (0,)))
-            specs.append(("bounded", name, sh, d[:2], 6, (0, 1)))
+            if name in SMALL_SPECIALS:
+                specs.append(("closure", name, sh, d[:2], None, (0,)))
+            specs.append(("bounded", name, sh, d[:2], 5, (0, 1)))
         for name, sh in STRUCTURAL_SHAPES.items():
-            # depth 4 on the small shapes; the shapes with dependency-only edges (largest operation menus) stay at depth 3
-            specs.append(("structural", name, sh, (0, 1), 3 if name.startswith("s-dep") else 4, (0,)))
+            specs.append(("structural", name, sh, (0, 1), 3, (0,)))
         for name, sh in FAIL_SHAPES.items():
             one_input = not name.startswith("fail:B2/")
-            specs.append(("rw", name, sh, (0, 1), None if one_input else 6, (0,)))
-            specs.append(("bounded", name, sh, (0, 1), 5, (0,)))
-        specs.append(("nexus", "registry", None, None, 6, None))
+            specs.append(("rw", name, sh, (0, 1), None if one_input else 5, (0,)))
+            specs.append(("bounded", name, sh, (0, 1), 4, (0,)))
+        specs.append(("nexus", "registry", None, None, 5, None))
         specs.append(("nexus", "registry-full", None, None, 3, None))
     # de-duplicate identical specs (asc == desc when no node has two children)
     seen, out = set(), []
@@ -755,10 +755,10 @@ def bound(tier, seed):
             "without top; the read directly after a failed read is a state of its own"
         )
     return (
-        "closure: all DAGs with 2..4 nodes (both child orders, values {0,1,2}) and 5 nodes (values {0,1}) + 11 special shapes; "
-        "depth 6 with function replacement; structural edits depth 4 on 9 shapes; Nexus registry API depth 6 (empty start) / 4 "
-        "(populated start); 120 shapes with nodes that "
-        "cannot be evaluated: set/read closure (two-input sub-graphs depth 6), all operations depth 5"
+        "closure: all DAGs with 2..4 nodes (both child orders, values {0,1,2}) + the small special shapes; "
+        "depth 5 with function replacement on the four-node DAGs and all 11 special shapes; structural edits depth 3 on 9 shapes; Nexus "
+        "registry API depth 5 (empty start) / 3 (populated start); 120 shapes with nodes that "
+        "cannot be evaluated: set/read closure (two-input sub-graphs depth 5), all operations depth 4"
     )
 
 
